@@ -227,10 +227,23 @@ def replay(case, on_state=None):
     return out
 
 
+def _rebuild(bibs, calls):
+    """The competition and model after the accepted calls `calls` (plain re-execution, no checks)."""
+    c, m, hist = start(bibs)
+    for call in calls:
+        hjimpl.apply(c, call)
+        m.apply(call)
+        hist.append(call)
+    return c, m, hist
+
+
 def bfs(bibs, prefix, depth, max_reg, max_total, visit, stats):
     """Enumerate all call sequences (legal or not) to `depth` calls after `prefix`, de-duplicated by state.
 
-    visit(c, m, hist, vs, status, call) is called for every executed call."""
+    visit(c, m, hist, vs, status, call) is called for every executed call.  The frontier is kept as call lists (a state
+    is rebuilt when its turn comes) and the visited set as 64-bit hashes of the state key: memory stays in the hundreds
+    of megabytes for millions of states, and the search remains a pure breadth-first one (every state is expanded at
+    its minimal depth, so "exhaustive to the depth bound" holds)."""
     c, m, hist = start(bibs)
     for call in prefix:
         vs, status = check_call(c, m, call, hist)
@@ -238,11 +251,18 @@ def bfs(bibs, prefix, depth, max_reg, max_total, visit, stats):
         if status != 'ok':
             return
         hist.append(call)
-    frontier = [(c, m, hist)]
-    seen = {hjimpl.dedup_key(c)}
+    nb = len(bibs)
+    frontier = [tuple(hist[nb:])]
+    seen = {hash(hjimpl.dedup_key(c))}
+    first = (c, m, hist)
     for d in range(depth):
         nxt = []
-        for c, m, hist in frontier:
+        for calls in frontier:
+            if first is not None:
+                c, m, hist = first
+                first = None
+            else:
+                c, m, hist = _rebuild(bibs, calls)
             backup = None
             before = hjimpl.snapshot(c, full=True)
             for call in alphabet(c, m, max_reg, max_total):
@@ -264,10 +284,10 @@ def bfs(bibs, prefix, depth, max_reg, max_total, visit, stats):
                 h2 = hist + [call]
                 visit(c2, m2, h2, vs, status, call)
                 if status == 'ok':
-                    k = hjimpl.dedup_key(c2)
+                    k = hash(hjimpl.dedup_key(c2))
                     if k not in seen:
                         seen.add(k)
-                        nxt.append((c2, m2, h2))     # decided states too: every call must then be refused
+                        nxt.append(calls + (call,))     # decided states too: every call must then be refused
                 elif status.startswith('truncated'):
                     stats['truncated'][status[10:]] = stats['truncated'].get(status[10:], 0) + 1
         frontier = nxt
